@@ -6,7 +6,23 @@ NOT_APPLICABLE = {
 }
 NOTES = "See DESIGN.md. ./check <id> --tier quick|thorough; exit 0 held / 1 VIOLATION / 2 infrastructure failure (never a verdict)."
 TRUST = "Trusted: TLC 1.8, the Go harness (vdrive: rendering of stimuli to Lisp text, observation through a registered marker function), python3 orchestration. Bounded: see evidence 'rule'."
+CORE_TEXT = ("Trace validation against an abstract machine: Core.tla is a small-step machine (control, environment heap shared by closures, "
+             "continuation frames with unique block / tagbody ids, exit mode that unwinds frame by frame through protect frames) for the core language; "
+             "a seeded typed generator produces programs with a marker call around every evaluated position, slip evaluates them, and the TLA+ acceptor "
+             "CoreTrace (TLC) advances the machine to its next observable event for every recorded marker and for the final values / condition class: "
+             "order and number of evaluations, selected branches, bindings, closure state, loop protocol, multiple values, and for the control profile "
+             "targets of return-from / return / go, cleanups exactly once innermost first, errors and ignore-errors.")
 CHECKS = {
+ "C01": {
+  "text": CORE_TEXT,
+  "design_ref": "DESIGN.md section 3 C01",
+  "note": TRUST + " Programs are chosen by a seeded generator in the harness (core profile); the machine is the only judge.",
+  "technique": "TLA+ abstract machine (CEK style) as trace acceptor under TLC over marker traces recorded from the implementation"},
+ "C07": {
+  "text": CORE_TEXT,
+  "design_ref": "DESIGN.md section 3 C07",
+  "note": TRUST + " Control profile of the same generator: exits in body and argument positions, cleanup forms that signal, recursion through a cleanup, loops left early from under a let. with-mutex-lock is observed by the C17 check.",
+  "technique": "TLA+ abstract machine (CEK style) as trace acceptor under TLC over marker traces recorded from the implementation"},
  "C02": {
   "text": "Trace validation: the harness reads generated texts (token pool over the whole grammar incl. multi-byte characters, numbers in several radixes, prefixes, comments) through every delivery mode - ReadStream, one-form ReadStream, ReadStreamPush, ReadStreamEach with every single cut / fixed chunk sizes / random multi-cuts, repeated ReadOne, read-from-string, cl:read - under several *read-base* / float-format settings, plus every proper prefix of every text; each event carries the one-shot result and is judged under TLC by the TLA+ acceptor ReaderTrace: delivery independence (relational), and, from the per-code-point structure machine Reader.tla, form count, reported positions between the end of a form and the start of the next, incomplete texts never read as complete, forms before a truncation point unchanged.",
   "design_ref": "DESIGN.md section 3 C02",
